@@ -23,7 +23,8 @@ COQ_IMPORTS = ("From Coq Require Import List ZArith Bool QArith Qcanon.\n"
                "From PV Require Import Base.Index Np.Array Model.Sparse Model.Repr Model.Harness Model.C11Check.\n")
 RULE = ("count tensors <= 4x3x2 (2- and 3-way; random fill, an emptied slice, all-zero fibres), dense and sparse, ranks 1-2, integer "
         "guesses optionally with an all-zero row, algorithms mu/pdnr/pqnr x option sets (maxinneriters, precompinds, inexact, "
-        "lbfgsMem, kappa), maxiters 1..3 run from the same guess; non-trivial = data not all zero; distinct = distinct (op,args)")
+        "lbfgsMem, kappa), maxiters 1..3 run from the same guess; plus op mu_model: the executable Coq MU model (exact rational "
+        "division) run side by side on 2-way/3-way inputs, 1-2 outer and 1-2 inner iterations, guesses with a zero row; non-trivial = data not all zero; distinct = distinct (op,args)")
 CORRESPONDENCE_ONLY = ["Newton / L-BFGS search directions and the line search (oracles): only non-negativity of the projected step is proved",
                        "logarithm in the objective (math.log recomputation in the harness)",
                        "likelihood improvement over the starting guess: sampled, not proved",
@@ -32,7 +33,8 @@ ASSUMPTIONS = ["model entries converted exactly float -> rational (signs are exa
                "objective compared at 1e-9 relative; -inf objectives (a positive count where the model is exactly 0) must agree as -inf",
                "A-23 (pdnr/pqnr write 1e-8 into zero rows of the caller's guess) is C05's and is not checked here",
                "theorems over an abstract ordered commutative ring given by Section hypotheses; division, Newton and L-BFGS steps are oracles"]
-EXPLANATION = ("C11_mu_nonneg: executable model of the MU sweep keeps weights/factors non-negative for any division oracle that maps "
+EXPLANATION = ("op mu_model ties the model the theorems are about to the code: its final state denotes the returned tensor and its "
+               "KKT trace equals the reported one at 1e-9. C11_mu_nonneg: executable model of the MU sweep keeps weights/factors non-negative for any division oracle that maps "
                "non-negative inputs to non-negative outputs; C11_proj_nonneg: the projected step is non-negative for every direction; "
                "C11_mass_identity: sum of all model entries = sum_r lambda_r prod_n colsum_n(r) (any ring, shape, rank); C11_bookkeeping: "
                "KKT list length = iterations performed <= maxiters, entries >= 0.")
@@ -101,13 +103,13 @@ def gen_cases(rng, tier):
             data = _counts(rng, shp, rng.choice(["random", "empty_slice", "full"]))
             rank = rng.randint(1, 2)
             guess = [[[rng.randint(1, 3) for _ in range(rank)] for _ in range(d)] for d in shp]
-            if rng.random() < 0.3:
+            deep = len(shp) == 2 and (rep == 0 or rng.random() < 0.5)       # two outer iterations: exercises the kappa fix-up
+            if deep or rng.random() < 0.3:
                 m = rng.randrange(len(shp))
                 guess[m][rng.randrange(shp[m])] = [0] * rank
-            deep = len(shp) == 2 and rng.random() < 0.5
             a = {"shape": list(shp), "data": data, "sparse": rng.random() < 0.5, "rank": rank, "gw": [rng.randint(1, 2) for _ in range(rank)],
                  "gf": guess, "alg": "mu", "maxiters": 2 if deep else 1,
-                 "opts": {"maxinneriters": rng.choice([1, 2]) if not deep else 1, "kappa": rng.choice([0.01, 0.1]),
+                 "opts": {"maxinneriters": rng.choice([1, 2]) if (not deep and len(shp) == 2) else 1, "kappa": rng.choice([0.01, 0.1]),
                           "kappatol": rng.choice([1e-10, 1e-3])},
                  "order": rng.choice(["sorted", "random"]), "sseed": rng.randrange(10 ** 6)}
             cases.append(Case("mu_model", a, True))
